@@ -235,13 +235,15 @@ def trace_leg(ctx, binary, cov, states, trans, replayed, res):
             else:
                 for k in ("mode", "api", "values"):
                     kinds[k + ":" + e[k]] = kinds.get(k + ":" + e[k], 0) + 1
+                if e.get("nbr"):
+                    kinds["history:neighbours"] = kinds.get("history:neighbours", 0) + 1
     for o in OPS:
         if kinds.get(o + ":ok", 0) == 0:
             raise Infra("recorder produced no successful %s call: driver is not exercising the property" % o)
     for o in FAILING:
         if kinds.get(o + ":fail", 0) == 0:
             raise Infra("recorder produced no failing %s call: driver is not exercising the property" % o)
-    for k in ("claim:position-vanished", "claim:paid-coins", "mode:fresh", "mode:held", "mode:two",
+    for k in ("claim:position-vanished", "claim:paid-coins", "mode:fresh", "mode:held", "mode:two", "history:neighbours", "nbr:ok",
               "api:plain", "api:interval", "api:cl"):
         if kinds.get(k, 0) == 0:
             raise Infra("recorder produced no %s: driver is not exercising the property" % k)
